@@ -37,7 +37,12 @@ def call_repr(n):
     return f"<{n.name}>"
 
 
-REPRS = ["{node.data}", call_repr, None, "{node.name}:{node.data_id}"]
+def brace_repr(n):
+    # a callable's result is the final text: braces in it are text, not a template
+    return "{" + n.name + "}{{0}}{}"
+
+
+REPRS = ["{node.data}", call_repr, None, "{node.name}:{node.data_id}", brace_repr]
 
 
 def style_wire(style):
@@ -106,13 +111,13 @@ def do_tree(ctx, out, spec, typed, styles, rot, full, emptied=None):
     for path in paths:
         for style in styles:
             k = next(rot)
-            repr_ = REPRS[k % len(REPRS)]
+            repr_ = REPRS[(k + k // 5) % len(REPRS)]     # (five entries, as the titles: shifted every fifth case, so that every pair occurs)
             join = ["\n", "\n", ", ", "\n", "", "\n", " | "][k % 7]     # also the empty string (lines glued together)
             if not path:
                 titles = [None, False, True, "Title", ""] if full else [[None, False, "Title", True, ""][k % 5]]
                 for title in titles:
                     one(ctx, out, tree, ser, tj, spec, path, style, True, False, title, repr_, join, reqs, pend)
-                    out.count(("t", repr(spec), repr(style), repr(title), k % len(REPRS), join), nontriv)
+                    out.count(("t", repr(spec), repr(style), repr(title), REPRS.index(repr_), join), nontriv)
                     out.dist["title:" + repr(title)] += 1
                 # Node.format on the system root
                 for add_self in (False, True):
@@ -120,7 +125,7 @@ def do_tree(ctx, out, spec, typed, styles, rot, full, emptied=None):
             else:
                 for add_self in (False, True):
                     one(ctx, out, tree, ser, tj, spec, path, style, False, add_self, None, repr_, join, reqs, pend)
-                    out.count(("n", repr(spec), path, repr(style), add_self, k % len(REPRS), join), nontriv)
+                    out.count(("n", repr(spec), path, repr(style), add_self, REPRS.index(repr_), join), nontriv)
             out.dist["style:" + (style if isinstance(style, str) else ("default" if style is None else f"custom{len(style)}"))] += 1
     resps = ctx.driver.ask_many(reqs)
     for (case, impl), resp in zip(pend, resps):
@@ -133,7 +138,7 @@ def run(ctx):
     out = core.Outcome(
         rule="every ordered forest with <= N nodes (N=5 quick, 6 thorough; depth up to N) x every start node (tree and node) x every style of the "
         "CONNECTORS table + None + 'list' + custom 4/6-tuples + invalid name / invalid tuple lengths x add_self (Node.format) / title in "
-        "{None, False, True, text, ''} (Tree.format), with repr in {format string, callable, default, custom format} and join in {newline, ', ', '', ' | '} rotated; "
+        "{None, False, True, text, ''} (Tree.format), with repr in {format string, callable, default, custom format, callable whose text contains braces} and join in {newline, ', ', '', ' | '} rotated; "
         "text equality of the whole output; typed trees included. non-trivial = >= 3 nodes and >= 2 levels; distinct = distinct argument tuple"
     )
     styles = list(CONNECTORS.keys()) + [None, "list", "", "nosuchstyle"] + CUSTOM
